@@ -250,26 +250,535 @@ Proof.
   - rewrite Ht. simpl. intros H. destruct (N0 H) as (P & _). exfalso. eapply not_pre_init_if; eauto.
 Qed.
 
+(** events that are neither an on_initialize_run record nor a run-info publication *)
+Definition inert_ev (e : event) : Prop :=
+  match e with
+  | EvHook r => h_hook r <> HInitRun
+  | EvPub (PRunInfo _ _ _ _) => False
+  | _ => True
+  end.
+
+Lemma inert_t_init tr tr' : ext inert_ev tr tr' -> t_init tr' = t_init tr.
+Proof.
+  induction 1 as [|e tr' He _ IH]; auto. destruct e as [| r | |]; simpl; auto.
+  simpl in He. destruct (h_hook r); auto; congruence.
+Qed.
+Lemma inert_t_info tr tr' : ext inert_ev tr tr' -> t_info tr' = t_info tr.
+Proof.
+  induction 1 as [|e tr' He _ IH]; auto. destruct e as [| | p |]; simpl; auto.
+  destruct p; simpl in He; auto; contradiction.
+Qed.
+Lemma inert_t_info0 tr tr' : ext inert_ev tr tr' -> t_info0 tr' = t_info0 tr.
+Proof.
+  induction 1 as [|e tr' He _ IH]; auto. destruct e as [| | p |]; simpl; auto.
+  destruct p; simpl in He; auto; contradiction.
+Qed.
+Lemma quiet_inert cs e : quiet_ev cs e -> inert_ev e.
+Proof.
+  destruct e as [| r | p |]; simpl; auto.
+  - destruct (h_hook r); try contradiction; discriminate.
+  - destruct p; auto.
+Qed.
+Lemma call_inert e : call_ev e -> inert_ev e.
+Proof. destruct e; simpl; auto; contradiction. Qed.
+
 Definition I1 (s0 : state) : Prop := forall ra, run_arg s0 = Some ra ->
   t_init (trace s0) = Some (ra_no ra) /\ t_info0 (trace s0) = Some (ra_no ra, ra_stmt ra) /\
   exists ph, t_info (trace s0) = Some (ra_no ra, ph, ra_stmt ra).
 
 Lemma I1_step : I1 s'.
 Proof.
-  assert (I : I1 s) by (destruct HN; assumption). unfold I1 in *.
-  assert (Hq : forall cs, run_arg s' = run_arg s -> ext (quiet_ev cs) (trace s) (trace s') ->
+  assert (HI : I1 s) by (destruct HN; assumption). unfold I1 in *.
+  assert (Hq : run_arg s' = run_arg s -> ext inert_ev (trace s) (trace s') ->
       forall ra, run_arg s' = Some ra ->
       t_init (trace s') = Some (ra_no ra) /\ t_info0 (trace s') = Some (ra_no ra, ra_stmt ra) /\
       exists ph, t_info (trace s') = Some (ra_no ra, ph, ra_stmt ra)).
-  { intros cs Er Hx ra Hra. rewrite (quiet_t_init _ _ _ Hx), (quiet_t_info0 _ _ _ Hx), (quiet_t_info _ _ _ Hx).
-    apply I. congruence. }
-  kinds; try (eapply Hq; eauto; fail).
+  { intros Er Hx ra Hra. rewrite (inert_t_init _ _ Hx), (inert_t_info0 _ _ Hx), (inert_t_info _ _ Hx).
+    apply HI. congruence. }
+  kinds.
+  - apply Hq; auto. eapply ext_weaken; [apply quiet_inert | exact Hx].
   - intros ra Hra. congruence.
-  - eapply Hq; eauto. rewrite Ht. apply ext_cons; [simpl; rewrite Hr; exact I0|].
-    apply ext_cons; [simpl; reflexivity | exact Hx].
-  - intros ra Hra. rewrite Er in Hra. inversion Hra; subst ra0. rewrite Ht. simpl. repeat split; eauto.
-  - eapply (Hq (c_stmt s')); eauto.
+  - apply Hq; auto. rewrite Ht. apply ext_cons; [simpl; rewrite Hr; discriminate|].
+    apply ext_cons; [exact I|]. eapply ext_weaken; [apply quiet_inert | exact Hx].
+  - intros ra Hra. rewrite Er in Hra. inversion Hra as [Hra']. rewrite <- Hra', Ht, Era. simpl. repeat split; eauto.
+  - apply Hq; auto.
+    assert (Hp : ext inert_ev (trace s) pre) by (eapply ext_weaken; [apply call_inert | exact Hx]).
     destruct (o_stmt o) as [x|].
-    + destruct Hm' as (Ec & _ & r & Hr & Ht). destruct (comp_eq4 _ _ _ _ _ Ec) as (E1 & _). rewrite Ht, E1.
-      apply ext_cons; [simpl; rewrite Hr; exact I0|]. apply ext_cons; [simpl; reflexivity|].
-Abort.
+    + destruct Hm' as (_ & _ & r & Hr & Ht). rewrite Ht.
+      apply ext_cons; [simpl; rewrite Hr; discriminate|]. apply ext_cons; [exact I|].
+      apply ext_cons; [simpl; discriminate | exact Hp].
+    + destruct Hm' as (_ & _ & Ht). rewrite Ht. apply ext_cons; [simpl; discriminate | exact Hp].
+  - apply Hq; auto. rewrite Ht. constructor.
+  - apply Hq; auto. rewrite Ht. apply ext_cons; [exact I | constructor].
+  - apply Hq; auto. rewrite Ht. apply ext_cons; [exact I|]. eapply ext_weaken; [apply call_inert | exact Hx].
+  - intros ra Hra. rewrite Er, Era in Hra. inversion Hra; subst ra0. destruct (HI _ Era) as (A1 & A2 & _).
+    rewrite Ht. simpl. repeat split; eauto.
+  - intros ra Hra. rewrite Er, Era in Hra. inversion Hra; subst ra0. destruct (HI _ Era) as (A1 & A2 & _).
+    rewrite Ht. simpl. repeat split; eauto.
+Qed.
+
+(** events that are neither an on_initialize_run nor a reset record *)
+Definition noir_ev (e : event) : Prop :=
+  match e with EvHook r => h_hook r <> HInitRun /\ h_hook r <> HReset | _ => True end.
+
+Lemma noir_t_init tr tr' : ext noir_ev tr tr' -> t_init tr' = t_init tr.
+Proof.
+  induction 1 as [|e tr' He _ IH]; auto. destruct e as [| r | |]; simpl; auto.
+  simpl in He. destruct (h_hook r); auto; destruct He; congruence.
+Qed.
+Lemma noir_resets tr tr' : ext noir_ev tr tr' -> resets_since tr' = resets_since tr.
+Proof.
+  induction 1 as [|e tr' He _ IH]; auto. destruct e as [| r | |]; simpl; auto.
+  simpl in He. destruct (h_hook r); auto; destruct He; congruence.
+Qed.
+Lemma quiet_noir cs e : quiet_ev cs e -> noir_ev e.
+Proof.
+  destruct e as [| r | p |]; simpl; auto.
+  destruct (h_hook r); try contradiction; split; discriminate.
+Qed.
+Lemma call_noir e : call_ev e -> noir_ev e.
+Proof. destruct e; simpl; auto; contradiction. Qed.
+
+Definition NC (s0 : state) : Prop := forall n, t_init (trace s0) = Some n ->
+  (c_next s0 = n + 1 \/ In (Some (c_next s0)) (resets_since (trace s0))) /\
+  (forall o k, hview s0 = Some (CReset o, 2%nat) -> o_start o = Some k -> In (Some k) (resets_since (trace s0))).
+
+Lemma NC_step : NC s'.
+Proof.
+  assert (HC : NC s) by (destruct HN; assumption). unfold NC in *.
+  assert (Hq : c_next s' = c_next s -> (forall o, hview s' = Some (CReset o, 2%nat) -> hview s = hview s') ->
+               ext noir_ev (trace s) (trace s') ->
+      forall n, t_init (trace s') = Some n ->
+      (c_next s' = n + 1 \/ In (Some (c_next s')) (resets_since (trace s'))) /\
+      (forall o k, hview s' = Some (CReset o, 2%nat) -> o_start o = Some k -> In (Some k) (resets_since (trace s')))).
+  { intros E2 Ev Hx n. rewrite (noir_t_init _ _ Hx), (noir_resets _ _ Hx), E2. intros Hn.
+    destruct (HC n Hn) as (C1 & C2). split; auto. intros o k Hv. apply C2. rewrite (Ev _ Hv). exact Hv. }
+  kinds.
+  - destruct (comp_eq _ _ Ec) as (_ & E2 & _). apply Hq; auto.
+    eapply ext_weaken; [apply quiet_noir | exact Hx].
+  - destruct (comp_eq _ _ Ec) as (_ & E2 & _). apply Hq; auto.
+    eapply ext_weaken; [apply quiet_noir | exact Hx].
+  - destruct (comp_eq _ _ Ec) as (_ & E2 & _). apply Hq; auto.
+    + intros o Hv. congruence.
+    + rewrite Ht. apply ext_cons; [simpl; rewrite Hr; split; discriminate|].
+      apply ext_cons; [exact I|]. eapply ext_weaken; [apply quiet_noir | exact Hx].
+  - destruct (comp_eq4 _ _ _ _ _ Ec) as (_ & E2 & _). intros n. rewrite Ht, Era, E2. simpl.
+    intros Hn. inversion Hn; subst n. split; [left; reflexivity|].
+    intros o k Hv. destruct Ev as [[_ Ev] | (o' & _ & Ev)]; congruence.
+  - assert (Hp : ext noir_ev (trace s) pre) by (eapply ext_weaken; [apply call_noir | exact Hx]).
+    intros n Hn.
+    assert (Hn0 : t_init (trace s) = Some n).
+    { rewrite <- (noir_t_init _ _ Hp).
+      destruct (o_stmt o); [destruct Hm' as (_ & _ & r & Hr & Ht) | destruct Hm' as (_ & _ & Ht)];
+        rewrite Ht in Hn; simpl in Hn; rewrite ?Hr in Hn; exact Hn. }
+    destruct (HC n Hn0) as (C1 & _).
+    destruct (o_stmt o) as [x|].
+    + destruct Hm' as (Ec & Hv' & r & Hr & Ht). destruct (comp_eq4 _ _ _ _ _ Ec) as (_ & E2 & _).
+      rewrite Ht, E2. simpl. rewrite Hr. simpl. rewrite (noir_resets _ _ Hp). split.
+      * destruct C1; auto.
+      * intros o0 k Hv Hk. rewrite Hv' in Hv. inversion Hv; subst o0. left. exact Hk.
+    + destruct Hm' as (Ec & Hv' & Ht). unfold applied in Ec. destruct (comp_eq4 _ _ _ _ _ Ec) as (_ & E2 & _).
+      rewrite Ht, E2. simpl. rewrite (noir_resets _ _ Hp). split.
+      * destruct (o_start o) as [k|]; simpl; auto. destruct C1; auto.
+      * intros o0 k Hv. congruence.
+  - unfold applied in Ec. destruct (comp_eq4 _ _ _ _ _ Ec) as (_ & E2 & _).
+    intros n. rewrite Ht, E2. intros Hn. destruct (HC n Hn) as (C1 & C2). split.
+    + destruct (o_start o) as [k|] eqn:Eo; simpl; auto. right. eapply C2; eauto.
+    + intros o0 k Hv. congruence.
+  - destruct (comp_eq _ _ Ec) as (_ & E2 & _). apply Hq; auto.
+    + intros o0 Hv. congruence.
+    + rewrite Ht. apply ext_cons; [exact I | constructor].
+  - destruct (comp_eq _ _ Ec) as (_ & E2 & _). apply Hq; auto.
+    + intros o0 Hv. congruence.
+    + rewrite Ht. apply ext_cons; [exact I|]. eapply ext_weaken; [apply call_noir | exact Hx].
+  - destruct (comp_eq _ _ Ec) as (_ & E2 & _). apply Hq; auto.
+    rewrite Ht. apply ext_cons; [simpl; split; discriminate|]. apply ext_cons; [exact I | constructor].
+  - destruct (comp_eq _ _ Ec) as (_ & E2 & _). apply Hq; auto.
+    rewrite Ht. apply ext_cons; [simpl; split; discriminate|]. apply ext_cons; [exact I | constructor].
+Qed.
+
+Lemma NI_kind : NI start s'.
+Proof. constructor; [apply A_step | apply J_step | apply N0_step | apply I1_step | apply NC_step]. Qed.
+End Step.
+
+Theorem NI_step start s l : LkS s -> FI s -> NI start s -> NI start (step s l).
+Proof. intros HL HF HN. eapply NI_kind; eauto. apply step_kind; auto. Qed.
+
+Theorem NI_reachable a b c d ls : NI b (run_labels (init_state a b c d) ls).
+Proof.
+  unfold run_labels.
+  generalize (LkS_init a b c d) (FI_init a b c d) (NI_init a b c d). generalize (init_state a b c d).
+  induction ls as [|l ls IH]; intros s HL HF HN; simpl; auto.
+  apply IH; [apply LkS_step | apply FI_step | apply NI_step]; auto.
+Qed.
+
+(** ---- history invariants: each event relative to the trace below it ---- *)
+Definition P_consec (start : Z) (e : event) (prev : list event) : Prop :=
+  forall r m, e = EvHook r -> h_hook r = HInitRun -> h_runno r = Some m ->
+  match t_init prev with
+  | Some n => m = n + 1 \/ In (Some m) (resets_since prev)
+  | None => m = start
+  end.
+
+Definition P_start (e : event) (prev : list event) : Prop :=
+  forall r, e = EvHook r -> h_hook r = HStartRun ->
+  exists n x, h_runno r = Some n /\ h_stmt r = Some x /\ t_stmt prev = Some x /\ t_init prev = Some n /\
+              t_info0 prev = Some (n, x) /\ t_info prev = Some (n, RRunning, x).
+
+Definition P_carried (e : event) (prev : list event) : Prop :=
+  (forall r, e = EvHook r -> h_hook r = HEndRun -> exists n, h_runno r = Some n /\ t_init prev = Some n) /\
+  (forall k ph x res, e = EvPub (PRunInfo k ph x res) -> ph <> RInitialized -> t_init prev = Some k).
+
+Definition P_initrec (e : event) (prev : list event) : Prop :=
+  forall r, e = EvHook r -> h_hook r = HInitRun ->
+  exists n x rest, h_runno r = Some n /\ h_stmt r = Some x /\
+                   prev = EvPub (PRunInfo n RInitialized x None) :: EvPub (PRunNo n) :: rest.
+
+(** what must follow a run-number publication / an `initialized` run info *)
+Definition P_block (e : event) (prev : list event) : Prop :=
+  match prev with
+  | EvPub (PRunNo k) :: _ => exists x, e = EvPub (PRunInfo k RInitialized x None)
+  | EvPub (PRunInfo k RInitialized x _) :: _ =>
+    exists r, e = EvHook r /\ h_hook r = HInitRun /\ h_runno r = Some k /\ h_stmt r = Some x
+  | _ => True
+  end.
+
+Definition top_ok (tr : list event) : Prop :=
+  match tr with
+  | EvPub (PRunNo _) :: _ => False
+  | EvPub (PRunInfo _ RInitialized _ _) :: _ => False
+  | _ => True
+  end.
+
+Definition PH (start : Z) (e : event) (prev : list event) : Prop :=
+  P_consec start e prev /\ P_start e prev /\ P_carried e prev /\ P_initrec e prev /\ P_block e prev.
+
+Definition HI (start : Z) (tr : list event) : Prop := all_suffix (PH start) tr /\ top_ok tr.
+
+Definition plain_ev (e : event) : Prop :=
+  match e with
+  | EvHook r => match h_hook r with HInitRun | HStartRun | HEndRun => False | _ => True end
+  | EvPub (PRunNo _) | EvPub (PRunInfo _ _ _ _) => False
+  | _ => True
+  end.
+
+Lemma top_block e prev : top_ok prev -> P_block e prev.
+Proof.
+  unfold top_ok, P_block. destruct prev as [|[| |p|] rest]; auto. destruct p; auto; try contradiction.
+  destruct ph; auto; contradiction.
+Qed.
+
+Lemma plain_PH start e prev : plain_ev e -> top_ok prev -> PH start e prev /\ top_ok (e :: prev).
+Proof.
+  intros Hp Ht. split; [repeat split|].
+  - intros r m -> Hr _. simpl in Hp. rewrite Hr in Hp. contradiction.
+  - intros r -> Hr. simpl in Hp. rewrite Hr in Hp. contradiction.
+  - intros r -> Hr. simpl in Hp. rewrite Hr in Hp. contradiction.
+  - intros k ph x res ->. contradiction.
+  - intros r -> Hr. simpl in Hp. rewrite Hr in Hp. contradiction.
+  - apply top_block; auto.
+  - destruct e as [| |p|]; simpl; auto. destruct p; simpl in Hp; auto; contradiction.
+Qed.
+
+Lemma HI_ext start (Q : event -> Prop) tr tr' :
+  (forall e, Q e -> plain_ev e) -> ext Q tr tr' -> HI start tr -> HI start tr'.
+Proof.
+  intros HQ Hx H. induction Hx as [|e tr' He _ IH]; auto.
+  destruct IH as [IA IT]. destruct (plain_PH start e tr' (HQ _ He) IT) as [P T].
+  split; simpl; auto.
+Qed.
+
+Lemma HI_cons start e tr : plain_ev e -> HI start tr -> HI start (e :: tr).
+Proof.
+  intros He [IA IT]. destruct (plain_PH start e tr He IT) as [P T]. split; simpl; auto.
+Qed.
+
+Lemma quiet_plain cs e : quiet_ev cs e -> plain_ev e.
+Proof.
+  destruct e as [| r | p |]; simpl; auto.
+  - destruct (h_hook r); auto.
+  - destruct p; auto.
+Qed.
+Lemma call_plain e : call_ev e -> plain_ev e.
+Proof. destruct e; simpl; auto; contradiction. Qed.
+
+Lemma running_not_mid s : LkS s -> FI s -> st_fsm s = Running -> reset_mid s = false.
+Proof.
+  intros HL HF Hr. unfold reset_mid. destruct (hview s) as [[c k]|] eqn:Ev; auto.
+  pose proof (hview_fsm _ _ _ HL HF Ev) as H.
+  destruct k as [|[|[|[|k]]]]; simpl; auto; destruct H; congruence.
+Qed.
+
+Ltac ph5 := unfold PH; split; [|split; [|split; [|split]]].
+Ltac nohook := let r := fresh "r" in let H := fresh "H" in
+  first [ intros r ? H; discriminate H | intros r H; discriminate H ].
+
+Lemma PH_runno start k tr : top_ok tr -> PH start (EvPub (PRunNo k)) tr.
+Proof.
+  intros Ht. ph5.
+  - intros r m H. discriminate H.
+  - intros r H. discriminate H.
+  - split; [intros r H; discriminate H | intros k0 ph x res H; discriminate H].
+  - intros r H. discriminate H.
+  - apply top_block; auto.
+Qed.
+
+Lemma PH_info0 start k x tr : PH start (EvPub (PRunInfo k RInitialized x None)) (EvPub (PRunNo k) :: tr).
+Proof.
+  ph5.
+  - intros r m H. discriminate H.
+  - intros r H. discriminate H.
+  - split; [intros r H; discriminate H | intros k0 ph x0 res H Hph; inversion H; subst; congruence].
+  - intros r H. discriminate H.
+  - simpl. eauto.
+Qed.
+
+Lemma PH_initrec start f k x tr :
+  match t_init tr with Some n => k = n + 1 \/ In (Some k) (resets_since tr) | None => k = start end ->
+  PH start (EvHook (mkHook HInitRun f (Some k) (Some x) None))
+           (EvPub (PRunInfo k RInitialized x None) :: EvPub (PRunNo k) :: tr).
+Proof.
+  intros Hc. ph5.
+  - intros r m H _ Hm. inversion H; subst r. simpl in Hm. inversion Hm; subst m. simpl. exact Hc.
+  - intros r H Hh. inversion H; subst r. discriminate Hh.
+  - split; [intros r H Hh; inversion H; subst r; discriminate Hh | intros k0 ph x0 res H; discriminate H].
+  - intros r H _. inversion H; subst r. simpl. exists k, x, tr. auto.
+  - simpl. eexists. split; [reflexivity|]. simpl. auto.
+Qed.
+
+Lemma PH_info start k ph x res tr :
+  ph <> RInitialized -> top_ok tr -> t_init tr = Some k -> PH start (EvPub (PRunInfo k ph x res)) tr.
+Proof.
+  intros Hph Ht Hi. ph5.
+  - intros r m H. discriminate H.
+  - intros r H. discriminate H.
+  - split; [intros r H; discriminate H | intros k0 ph0 x0 res0 H _; inversion H; subst; exact Hi].
+  - intros r H. discriminate H.
+  - apply top_block; auto.
+Qed.
+
+Lemma PH_startrec start f n x tr :
+  t_stmt tr = Some x -> t_init tr = Some n -> t_info0 tr = Some (n, x) ->
+  PH start (EvHook (mkHook HStartRun f (Some n) (Some x) None)) (EvPub (PRunInfo n RRunning x None) :: tr).
+Proof.
+  intros H1 H2 H3. ph5.
+  - intros r m H Hh. inversion H; subst r. discriminate Hh.
+  - intros r H _. inversion H; subst r. simpl. exists n, x. repeat split; auto.
+  - split; [intros r H Hh; inversion H; subst r; discriminate Hh | intros k0 ph x0 res H; discriminate H].
+  - intros r H Hh. inversion H; subst r. discriminate Hh.
+  - simpl. exact I.
+Qed.
+
+Lemma PH_endrec start f n x res tr :
+  t_init tr = Some n ->
+  PH start (EvHook (mkHook HEndRun f (Some n) None None)) (EvPub (PRunInfo n RFinished x res) :: tr).
+Proof.
+  intros H2. ph5.
+  - intros r m H Hh. inversion H; subst r. discriminate Hh.
+  - intros r H Hh. inversion H; subst r. discriminate Hh.
+  - split; [intros r H _; inversion H; subst r; simpl; eauto | intros k0 ph x0 res0 H; discriminate H].
+  - intros r H Hh. inversion H; subst r. discriminate Hh.
+  - simpl. exact I.
+Qed.
+
+Lemma HI_kind start s s' :
+  LkS s -> FI s -> NI start s -> kind s s' -> HI start (trace s) -> HI start (trace s').
+Proof.
+  intros HL HF HN HK H. destruct HN as [A J N0 I1' NC'].
+  destruct HK as [Ec Er Ev Hp Hx | Ec Er Ef Ev Hx | c r tr1 Ec Er Ev Ev' Ef Hx Hr Ht
+                  | ra0 Era Ev Ec Er Ef Ht | o pre Ev Hfs Ef Er Hx Hm' | o Ev Ev' Ec Er Ef Ht
+                  | t o Ev Ev' Ec Er Ef Ht | t o pre Ev Ev' Ec Er Ef Hx Ht
+                  | ra0 Era Ef Ec Er Ev Ef' Ht | ra0 oc Era Ef Ec Er Ev Ef' Ht].
+  - eapply HI_ext; [apply quiet_plain | exact Hx | exact H].
+  - eapply HI_ext; [apply quiet_plain | exact Hx | exact H].
+  - rewrite Ht. apply HI_cons; [simpl; rewrite Hr; exact I|]. apply HI_cons; [exact I|].
+    eapply HI_ext; [apply quiet_plain | exact Hx | exact H].
+  - (* initialize_run *)
+    rewrite Ht. destruct H as [IA IT]. unfold init_block. rewrite Era. simpl.
+    split; [|exact I]. split; [|split; [|split; [|exact IA]]].
+    + apply PH_initrec. destruct (t_init (trace s)) as [n|] eqn:En.
+      * destruct (NC' n eq_refl) as (C1 & _). exact C1.
+      * destruct (N0 eq_refl) as (_ & C & _). exact C.
+    + apply PH_info0.
+    + apply PH_runno. exact IT.
+  - assert (Hp : HI start pre) by (eapply HI_ext; [apply call_plain | exact Hx | exact H]).
+    destruct (o_stmt o) as [x|].
+    + destruct Hm' as (_ & _ & r & Hr & Ht). rewrite Ht.
+      apply HI_cons; [simpl; rewrite Hr; exact I|]. apply HI_cons; [exact I|]. apply HI_cons; [exact I | exact Hp].
+    + destruct Hm' as (_ & _ & Ht). rewrite Ht. apply HI_cons; [exact I | exact Hp].
+  - rewrite Ht. exact H.
+  - rewrite Ht. apply HI_cons; [exact I | exact H].
+  - rewrite Ht. apply HI_cons; [exact I|]. eapply HI_ext; [apply call_plain | exact Hx | exact H].
+  - (* on_start_run *)
+    destruct (I1' _ Era) as (B1 & B2 & _).
+    destruct (A _ Era (running_not_mid _ HL HF Ef)) as (A1 & _).
+    assert (Js : t_stmt (trace s) = Some (ra_stmt ra0)).
+    { destruct J as [J|[J _]]; congruence. }
+    rewrite Ht. destruct H as [IA IT]. split; [|exact I]. simpl.
+    split; [|split; [|exact IA]].
+    + apply PH_startrec; auto.
+    + apply PH_info; auto. discriminate.
+  - (* on_end_run *)
+    destruct (I1' _ Era) as (B1 & B2 & _).
+    rewrite Ht. destruct H as [IA IT]. split; [|exact I]. simpl.
+    split; [|split; [|exact IA]].
+    + apply PH_endrec; auto.
+    + apply PH_info; auto. discriminate.
+Qed.
+
+Theorem HI_reachable a b c d ls : HI b (trace (run_labels (init_state a b c d) ls)).
+Proof.
+  assert (G : forall s, LkS s -> FI s -> NI b s -> HI b (trace s) ->
+              HI b (trace (fold_left step ls s))).
+  { induction ls as [|l ls IH]; intros s HL HF HN H; simpl; auto.
+    apply IH; [apply LkS_step | apply FI_step | apply NI_step | ]; auto.
+    eapply HI_kind; eauto. apply step_kind; auto. }
+  apply G; [apply LkS_init | apply FI_init | apply NI_init | split; simpl; auto].
+Qed.
+
+(** ---- what a step appended ---- *)
+Lemma appended_new s s' new : trace s' = new ++ trace s -> appended s s' = rev new.
+Proof.
+  intros E. unfold appended. rewrite E, app_length.
+  replace (length new + length (trace s) - length (trace s))%nat with (length new + 0)%nat by lia.
+  rewrite firstn_app_2. simpl. rewrite app_nil_r. reflexivity.
+Qed.
+
+Lemma in_appended s s' new e : trace s' = new ++ trace s -> (In e (appended s s') <-> In e new).
+Proof. intros E. rewrite (appended_new _ _ _ E). symmetry. apply in_rev. Qed.
+
+(** ---- the reset transition: ghost snapshot of the composer ---- *)
+Definition reset_of (e : event) : option hookrec :=
+  match e with
+  | EvHook r => match h_hook r with HReset => Some r | _ => None end
+  | _ => None
+  end.
+
+Fixpoint find_reset (l : list event) : option hookrec :=
+  match l with
+  | [] => None
+  | e :: r => match reset_of e with Some x => Some x | None => find_reset r end
+  end.
+
+Lemma find_reset_app_none l1 l2 : (forall e, In e l1 -> reset_of e = None) -> find_reset (l1 ++ l2) = find_reset l2.
+Proof.
+  induction l1 as [|e l1 IH]; intros H; simpl; auto.
+  rewrite (H e (or_introl eq_refl)). apply IH. intros e' Hin. apply H. right. exact Hin.
+Qed.
+
+Lemma find_reset_none l : (forall e, In e l -> reset_of e = None) -> find_reset l = None.
+Proof. intros H. rewrite <- (app_nil_r l). rewrite find_reset_app_none; auto. Qed.
+
+Lemma plain_or_reset_none e : plain_ev e -> (forall r, e = EvHook r -> h_hook r <> HReset) -> reset_of e = None.
+Proof.
+  intros _ H. destruct e as [| r | |]; simpl; auto. specialize (H r eq_refl). destruct (h_hook r); auto; congruence.
+Qed.
+
+Lemma quiet_reset_of cs e : quiet_ev cs e -> reset_of e = None.
+Proof. destruct e as [| r | |]; simpl; auto. destruct (h_hook r); auto; contradiction. Qed.
+Lemma call_reset_of e : call_ev e -> reset_of e = None.
+Proof. destruct e; simpl; auto; contradiction. Qed.
+
+Lemma ext_appended (P : event -> Prop) s s' :
+  ext P (trace s) (trace s') -> forall e, In e (appended s s') -> P e.
+Proof.
+  intros Hx e Hin. destruct (ext_app _ _ _ Hx) as (new & E & Hf).
+  apply (in_appended _ _ _ _ E) in Hin. rewrite Forall_forall in Hf. auto.
+Qed.
+
+Lemma ext_find_reset (P : event -> Prop) s s' :
+  (forall e, P e -> reset_of e = None) -> ext P (trace s) (trace s') -> find_reset (appended s s') = None.
+Proof. intros HP Hx. apply find_reset_none. intros e Hin. apply HP. eapply ext_appended; eauto. Qed.
+
+Notation cfields := (Z * Z * bool * bool)%type.
+Definition ghost := (cfields * option hookrec)%type.
+
+Definition merged (c : cfields) (o : opts) : cfields :=
+  match c with (a, b, x, y) => (dflt a (o_stmt o), dflt b (o_start o), dflt x (o_threads o), dflt y (o_modules o)) end.
+Definition merged_stmt (c : cfields) (o : opts) : cfields :=
+  match c with (a, b, x, y) => (dflt a (o_stmt o), b, x, y) end.
+Definition ra_of (c : cfields) : runarg := match c with (a, b, x, y) => mkRunArg b a x y end.
+
+(** the composer as it was just before the step that logged the latest reset record, and that record *)
+Definition gnext (s s' : state) (g : ghost) : ghost :=
+  match find_reset (appended s s') with Some r => (comp s, Some r) | None => g end.
+
+Definition gstep (sg : state * ghost) (l : label) : state * ghost :=
+  let s' := step (fst sg) l in (s', gnext (fst sg) s' (snd sg)).
+
+Definition grun (sg : state * ghost) (ls : list label) : state * ghost := fold_left gstep ls sg.
+
+Lemma grun_fst ls : forall sg, fst (grun sg ls) = run_labels (fst sg) ls.
+Proof. induction ls as [|l ls IH]; intros sg; simpl; auto. change (fst (grun (gstep sg l) ls) = run_labels (step (fst sg) l) ls). rewrite IH. reflexivity. Qed.
+
+Definition snapshot (stmt start : Z) (th md : bool) (ls : list label) : ghost :=
+  snd (grun (init_state stmt start th md, (comp (init_state stmt start th md), None)) ls).
+
+Definition ZG (s : state) (g : ghost) : Prop :=
+  forall o k, hview s = Some (CReset o, k) -> (2 <= k)%nat ->
+  (exists r, snd g = Some r /\ h_hook r = HReset /\ h_stmt r = o_stmt o /\ h_start r = o_start o) /\
+  match k with
+  | 2%nat => comp s = merged_stmt (fst g) o
+  | 3%nat => comp s = merged (fst g) o
+  | _ => run_arg s = Some (ra_of (merged (fst g) o))
+  end.
+
+Lemma ZG_kind s s' g : LkS s -> FI s -> kind s s' -> ZG s g -> ZG s' (gnext s s' g).
+Proof.
+  intros HL HF HK Z. unfold gnext.
+  destruct HK as [Ec Er Ev Hp Hx | Ec Er Ef Ev Hx | c r tr1 Ec Er Ev Ev' Ef Hx Hr Ht
+                  | ra0 Era Ev Ec Er Ef Ht | o pre Ev Hfs Ef Er Hx Hm' | o Ev Ev' Ec Er Ef Ht
+                  | t o Ev Ev' Ec Er Ef Ht | t o pre Ev Ev' Ec Er Ef Hx Ht
+                  | ra0 Era Ef Ec Er Ev Ef' Ht | ra0 oc Era Ef Ec Er Ev Ef' Ht].
+  - rewrite (ext_find_reset _ _ _ (quiet_reset_of (c_stmt s)) Hx).
+    intros o k Hv Hk. rewrite Ev in Hv. destruct (Z o k Hv Hk) as (Z1 & Z2). split; auto.
+    rewrite Ec, Er. exact Z2.
+  - rewrite (ext_find_reset _ _ _ (quiet_reset_of (c_stmt s)) Hx).
+    intros o k Hv Hk. rewrite Ev in Hv. destruct (Z o k Hv Hk) as (Z1 & Z2). split; auto.
+    pose proof (hview_fsm _ _ _ HL HF Hv) as Hf.
+    destruct k as [|[|[|[|k]]]]; try lia; try (destruct Hf; congruence); congruence.
+  - intros o k Hv Hk. rewrite Ev' in Hv. inversion Hv; subst. lia.
+  - assert (Hn : find_reset (appended s s') = None).
+    { rewrite (appended_new _ _ _ Ht). reflexivity. }
+    rewrite Hn. intros o k Hv Hk. destruct Ev as [[_ Ev] | (o' & Ev & Ev')]; [congruence|].
+    rewrite Ev' in Hv. inversion Hv; subst o' k. destruct (Z o 3%nat Ev) as (Z1 & Z2); [lia|]. split; auto.
+    rewrite Er, Era. f_equal. destruct (fst g) as [[[a b] x] y]. simpl in *.
+    destruct (comp_eq4 _ _ _ _ _ Z2) as (E1 & E2 & E3 & E4). congruence.
+  - (* enter_reset *)
+    destruct (ext_app _ _ _ Hx) as (np & Ep & Hfp).
+    assert (Hcalls : forall e, In e (rev np) -> reset_of e = None).
+    { intros e Hin. apply call_reset_of. rewrite Forall_forall in Hfp. apply Hfp. apply in_rev. exact Hin. }
+    destruct (o_stmt o) as [x|] eqn:Eo.
+    + destruct Hm' as (Ec & Hv' & r & Hr & Ht).
+      assert (Hn : find_reset (appended s s') = Some (reset_rec s o)).
+      { rewrite (appended_new s s' (EvHook r :: EvPub (PStatement x) :: EvHook (reset_rec s o) :: np)).
+        - simpl. rewrite <- !app_assoc. rewrite find_reset_app_none; auto.
+        - rewrite Ht, Ep. reflexivity. }
+      rewrite Hn. intros o0 k Hv Hk. rewrite Hv' in Hv. inversion Hv; subst o0 k. split.
+      * exists (reset_rec s o). simpl. auto.
+      * simpl. rewrite Ec. unfold comp, merged_stmt. rewrite Eo. reflexivity.
+    + destruct Hm' as (Ec & Hv' & Ht).
+      assert (Hn : find_reset (appended s s') = Some (reset_rec s o)).
+      { rewrite (appended_new s s' (EvHook (reset_rec s o) :: np)).
+        - simpl. rewrite find_reset_app_none; auto.
+        - rewrite Ht, Ep. reflexivity. }
+      rewrite Hn. intros o0 k Hv Hk. rewrite Hv' in Hv. inversion Hv; subst o0 k. split.
+      * exists (reset_rec s o). simpl. auto.
+      * simpl. rewrite Ec. unfold comp, merged, applied. rewrite Eo. reflexivity.
+  - assert (Hn : find_reset (appended s s') = None).
+    { rewrite (appended_new s s' []); [reflexivity | rewrite Ht; reflexivity]. }
+    rewrite Hn. intros o0 k Hv Hk. rewrite Ev' in Hv. inversion Hv; subst o0 k.
+    destruct (Z o 2%nat Ev) as (Z1 & Z2); [lia|]. split; auto.
+    rewrite Ec. unfold applied. destruct (fst g) as [[[a b] x] y]. simpl in *.
+    destruct (comp_eq4 _ _ _ _ _ Z2) as (E1 & E2 & E3 & E4). congruence.
+  - intros o0 k Hv. congruence.
+  - intros o0 k Hv. congruence.
+  - assert (Hn : find_reset (appended s s') = None).
+    { rewrite (appended_new s s' [_; _] Ht). reflexivity. }
+    rewrite Hn. intros o k Hv Hk. rewrite Ev in Hv. destruct (Z o k Hv Hk) as (Z1 & Z2). split; auto.
+    rewrite Ec, Er. exact Z2.
+  - assert (Hn : find_reset (appended s s') = None).
+    { rewrite (appended_new s s' [_; _] Ht). reflexivity. }
+    rewrite Hn. intros o k Hv Hk. rewrite Ev in Hv. destruct (Z o k Hv Hk) as (Z1 & Z2). split; auto.
+    rewrite Ec, Er. exact Z2.
+Qed.
